@@ -192,7 +192,7 @@ fn o_c16_disabled(h: &Hist) -> Vec<Viol> {
     };
     let mut extra: Vec<String> = vec![];
     for _ in 0..200 {
-        extra = names().into_iter().filter(|n| !n.starts_with("vt") && n != "fr-core").collect();
+        extra = names().into_iter().filter(|n| !n.starts_with("vt") && n != "fr-core" && n != "hang-monitor").collect();
         if extra.is_empty() {
             break;
         }
@@ -744,6 +744,20 @@ pub fn spec(id: &str, variant: &str, cancelable: bool, thorough: bool) -> Option
             nontrivial: nt_c10,
             rule: "well-nested sequences of set_local_parent / LocalSpan::enter / LocalCollector::start and guard drops on 1-2 vthreads, with context probes (current_local_parent, a probe span, a probe event) before opens, after closes and at generated points; non-trivial = probes at depth >=3 with both scope kinds, or a collector shadowing an outer scope with a compared pair, or a compared pair of probes at depth >=2; distinct = hash of the executed model shape",
         },
+        ("C11", "sched") => {
+            // the same extraction programs with full-queue episodes and cycles cut by the schedule:
+            // what from_span / current_local_parent return does not depend on the queue's state
+            let mut sp = spec("C11", "api", cancelable, thorough).unwrap();
+            sp.profile.cycles = (1, 6);
+            sp.profile.sched_len = (0, 40);
+            sp.profile.ops = (0, 16);
+            sp.profile.cancelable = Some(cancelable);
+            sp.profile.templates = vec![(2, Template::Extract), (2, Template::OverflowReplay)];
+            sp.profile = sp.profile.set(&[(K::Fill, 8), (K::Root, 12), (K::Finish, 10), (K::CtxOfSpan, 14), (K::Exit, 1)]);
+            sp.opts = ExecOpts { unique_traces: false, ..ExecOpts::new(Mode::Sched) };
+            sp.rule = "the same extraction programs under the hooked scheduler with ring-fill episodes (roots created while the thread's command queue is full) and cycles cut by the schedule; non-trivial as for the api variant";
+            sp
+        }
         ("C11", _) => PropSpec {
             id: "C11",
             profile: big(Profile {
